@@ -49,7 +49,7 @@ def main():
             rc, out = sh('cd /verif && VERIF_REPO=%s timeout 2400 ./check %s --tier %s' % (tree, c, tier))
             viol = [l for l in out.split('\n') if l.startswith('VIOLATION') or l.strip().startswith('clause:')]
             res['checks'][c] = {'rc': rc, 'wall_s': round(time.time() - t0), 'violations': viol[:6],
-                                'tail': out.strip().split('\n')[-3:]}
+                                'tail': out.strip().split('\n')[-(3 if rc in (0, 1) else 25):]}
     finally:
         shutil.rmtree(scratch, ignore_errors=True)
     return res
